@@ -96,6 +96,8 @@ def make_biopython(circular, layout, extras=()):
         quals = {"locus_tag": [name], "translation": ["M" + "K" * (coding // 3 - 1)]}
         if codon_start:
             quals["codon_start"] = [str(codon_start)]
+        if "cdsnote" in extras and name != "g0":
+            quals["note"] = ["a note from the input file"]
         rec.features.append(SeqFeature(loc, type="CDS", qualifiers=quals))
         if "gene" in extras:
             rec.features.append(SeqFeature(loc, type="gene", qualifiers={"locus_tag": [name], "gene": [name + "X"]}))
@@ -199,6 +201,16 @@ def build_record(spec):
                          peptide_subclass="Class I", score=12.5, monoisotopic_mass=100.25, molecular_weight=110.5,
                          alternative_weights=[120.5, 130.5])
         rec.add_cds_motif(pre)
+    if "prepeptide-plain" in extras:
+        # a precursor without a subclass, leader or tail (e.g. lassopeptide style), on the last gene
+        gene = rec.get_cds_features()[-1] if not rec.get_cds_features()[-1].location.crosses_origin() else rec.get_cds_features()[-2]
+        total = len(gene.location) // 3
+        rec.add_cds_motif(Prepeptide(gene.location, "lassopeptide", "C" * total, gene.get_name(), "lassopeptides"))
+    if "cdsnote" in extras:
+        # what smcog_trees' results do to a gene (the module itself needs external tools): a note is appended to the gene;
+        # g1 also carries a note of its own from the input file, g0 does not
+        for gene in rec.get_cds_features()[:2]:
+            gene.notes.append(f"smCOG tree PNG image: smcogs/{gene.get_name()}.png")
     if "tta" in extras and rec.get_regions():
         tta = TTAResults(rec.id, 0.7, 0.65)
         for gene in rec.get_cds_features_within_regions():
@@ -302,7 +314,7 @@ def _parent_number(proto):
 def specs(tier):
     """the catalogue: every combination of the menus (quick: extras one at a time, thorough: all subsets of size <= 2 + everything)"""
     out = []
-    extras_menu = ["pfam", "nrps", "prepeptide", "tta", "misc", "gene", "source"]
+    extras_menu = ["pfam", "nrps", "prepeptide", "tta", "misc", "gene", "source", "cdsnote", "prepeptide-plain"]
     if tier == "quick":
         extra_sets = [[]] + [[e] for e in extras_menu] + [extras_menu]
     else:
